@@ -26,6 +26,9 @@ def model_check(ctx, quick):
     # a one-slot clearance queue makes requests block (bounded channel of GOMAXPROCS*100 entries in the code)
     ctx.tlc("MicroTasks", cfg_text=vlib.cfg_text(constants=consts(("med", "med", "med", "low"), 2, False, qcap=1), invariants=INV,
                                                  properties=["AllDone"]), timeout=3000)
+    # ... and with max-delay expiry a blocked request starts without clearance (SubmitTimeout)
+    ctx.tlc("MicroTasks", cfg_text=vlib.cfg_text(constants=consts(("med", "med", "low"), 2, True, qcap=1), invariants=INV,
+                                                 properties=["AllDone"]), timeout=3000)
     runs = [(("low", "med", "med", "med"), 2, False), (("high", "med", "low", "med"), 2, True)]
     if not quick:
         runs += [(("high", "med", "med", "low", "med"), 2, True), (("med", "med", "med", "low", "low", "high"), 3, False)]
